@@ -304,6 +304,44 @@ func streamC02(env *runEnv) {
 		}
 		emitPaa(env, idp, tok, spec, func(int64) string { return term })
 	}
+	// (b2) histories: the same cookie (and a freshly signed one carrying the same access token)
+	// presented again after the provider stopped honouring the access token, and again after it
+	// resumed; acceptance must follow the provider's answer at the time of presentation
+	nh := 6
+	if env.thorough() {
+		nh = 60
+	}
+	for i := 0; i < nh; i++ {
+		at, _ := newAT("valid")
+		sub := "user" + strconv.Itoa(atN%7)
+		c1 := base(at)
+		t1 := signWith(jose.HS256, signingKey, c1)
+		c2 := base(at)
+		c2.Host = "10.9.9.9:3389"
+		t2 := signWith(jose.HS256, signingKey, c2)
+		for _, phase := range []string{"valid", pick(r, []string{"revoked", "err500", "drop", "unknown"}), "valid", "revoked"} {
+			idp.setToken(at, atBehaviour{kind: phase, sub: sub})
+			spec := phase
+			if phase == "valid" {
+				spec = "valid:" + hx([]byte(sub))
+			}
+			env.count("c02.history." + phase)
+			emitPaa(env, idp, t1, spec, func(int64) string { return c1.term("HS256", "S") })
+			emitPaa(env, idp, t2, spec, func(int64) string { return c2.term("HS256", "S") })
+		}
+	}
+	// (b3) thorough: a cookie that expires while the gateway is running is refused afterwards
+	// (the comparison time is the time of presentation, not an earlier one)
+	if env.thorough() {
+		at, spec := newAT("valid")
+		c := base(at)
+		c.Exp = i64(time.Now().Unix() + 2)
+		tok := signWith(jose.HS256, signingKey, c)
+		emitPaa(env, idp, tok, spec, func(int64) string { return c.term("HS256", "S") })
+		time.Sleep(66 * time.Second)
+		env.count("c02.expired-while-running")
+		emitPaa(env, idp, tok, spec, func(int64) string { return c.term("HS256", "S") })
+	}
 	// (c) every single-character substitution, truncation and segment swap of a valid token
 	at, spec := newAT("valid")
 	c := base(at)
@@ -379,4 +417,40 @@ func jwtSub(tok string) string {
 		return ""
 	}
 	return c.Sub
+}
+
+// c02proc: the cookie decision as the packet loop applies it — whatever the
+// handshake negotiated, a tunnel-create under token authentication is answered
+// according to the cookie check (process kind: compared with the processor model
+// and judged by the order monitor).
+func init() { streams["c02proc"] = streamC02Proc }
+
+func streamC02Proc(env *runEnv) {
+	e := newL1Env(1)
+	for _, cfg := range []procCfg{
+		{token: true, cookieCb: true, hostCb: true},
+		{token: true, smartcard: true, cookieCb: true, hostCb: true},
+		{token: true, smartcard: true, cookieCb: true, nameCb: true, hostCb: true},
+	} {
+		for _, ext := range []int{0, 1, 2, 3, 4, 7} {
+			for _, withCookie := range []bool{true, false} {
+				for _, cookieOK := range []bool{true, false} {
+					ans := [4]bool{cookieOK, true, true, true}
+					items := []item{
+						{data: packet(ptHandshake, handshakeBody(1, 0, 0, ext)), ans: ans},
+						{data: packet(ptTunnelCreate, tunnelCreateBody(0, "cookie", withCookie)), ans: ans},
+						{data: packet(ptTunnelAuth, tunnelAuthBody("pc")), ans: ans},
+						{data: packet(ptChannelCreate, channelCreateBody("127.0.0.1", e.pool[0].port)), ans: ans},
+						{eof: true},
+					}
+					res := e.runProcess(cfg, items)
+					env.count(fmt.Sprintf("c02proc.ext%d", ext))
+					env.emit("process", cfg.bits(), redirBits(cfg.redir), strconv.Itoa(cfg.idle), e.live(), itemsString(items), res.obs)
+					for _, b := range e.pool {
+						b.reset()
+					}
+				}
+			}
+		}
+	}
 }
